@@ -120,6 +120,7 @@ class BFSFamily(Family):
 
     def replay(self, case):
         evs = list(self.events('thorough'))
+        evs += [e for e in self.events('quick') if e not in evs]      # a tier may have events of its own
         by_label = {repr(jsonable(self.event_label(e))): e for e in evs}
         hist = []
         for lab in case['history']:
